@@ -18,6 +18,7 @@ a fork is a wire, the second output of a flip-flop is the complement of the firs
 elements are sources, the next state of a state element is the value at its data pin (pin 0).
 """
 import random
+import re
 
 # ------------------------------------------------------------------------------------------------
 # the 33 primitives: canonical name -> (arity, function on python-int bitsets)
@@ -544,3 +545,26 @@ def eval_lines(b, net, assign, nlanes, mode='bool', strip_forks=False, force=Non
             v = force[li]
         val[li] = v
     return val
+
+
+def extract(c):
+    """Re-extraction of a (parsed, resolved) kyupy Circuit into what eval_lines needs: a Built wrapper with the documented
+    row order and a gate table keyed by node name; primitive kinds are mapped by the harness' own table (vk.hier.kind_to_fam)."""
+    from .hier import kind_to_fam
+    from . import graph
+    b = Built()
+    b.c = c
+    ios = list(c.io_nodes)
+    for n in ios:
+        driven = len(n.ins) > 0 and n.ins[0] is not None
+        b.s_order.append(('out' if driven else 'in', n.name))
+    b.s_order += [('ff', n.name) for n in c.nodes if 'dff' in n.kind.lower()]
+    b.s_order += [('ff', n.name) for n in c.nodes if 'dff' not in n.kind.lower() and 'latch' in n.kind.lower()]
+    gates = []
+    iset = {id(n) for n in ios}
+    for n in c.nodes:
+        if n.kind == '__fork__' or id(n) in iset or graph.is_state(n) or n.kind in ('input', 'output'):
+            continue
+        fam, _ = kind_to_fam(re.sub(r'^(NAND|NOR|AND|OR|XNOR|XOR)$', r'\1', n.kind.upper()) if False else n.kind)
+        gates.append({'name': n.name, 'kind': n.kind, 'fam': fam, 'ins': [('x' if l is not None else None) for l in n.ins], 'out': n.name})
+    return b, {'gates': gates}
